@@ -51,6 +51,9 @@ def programs(ctx, n, small=False):
     from harness import obsprog as op
     rng = ctx.rng("progs")
     out = [c["prog"] for c in ctx.corpus()]
+    # the directed co-handler family first (removal / re-arm of the watch from inside a callback with several handlers on it)
+    while len(out) < min(n, 24):
+        out.append(op.gen_cohandler_program(rng))
     while len(out) < n:
         p = op.gen_cohandler_program(rng) if rng.random() < 0.25 else op.gen_program(rng, max_calls=2 if small else 4)
         if op.n_starts(p) <= 1:
